@@ -176,7 +176,8 @@ func (t1 *Tasks) Merge(t2 *Tasks, include *Include, includedTaskfileVars *Vars) 
 				task.IncludeVars = NewVars()
 			}
 			task.IncludeVars.Merge(include.Vars, nil)
-			task.IncludedTaskfileVars = includedTaskfileVars.DeepCopy()
+			task.IncludedTaskfileVars = NewVars()
+			task.IncludedTaskfileVars.Merge(includedTaskfileVars, include)
 		}
 
 		if _, ok := t1.Get(taskName); ok {
